@@ -807,6 +807,62 @@ Proof.
     exfalso. apply Hne. now apply H3.
 Qed.
 
+(** * monotonic revisions *)
+
+(** revision of the current configuration; [None] before the first load *)
+Definition rev_of (s : state) : option Z :=
+  match s with Some c => Some (c_revision c) | None => None end.
+
+(** [a] is no later than [b]: no configuration yet, or a revision not above *)
+Definition rev_le (a b : option Z) : Prop :=
+  match a, b with
+  | None, _ => True
+  | Some _, None => False
+  | Some x, Some y => x <= y
+  end.
+
+Lemma rev_le_refl a : rev_le a a.
+Proof. destruct a; cbn; [lia|exact I]. Qed.
+
+Lemma rev_le_trans a b c : rev_le a b -> rev_le b c -> rev_le a c.
+Proof. destruct a, b, c; cbn; try tauto; lia. Qed.
+
+Lemma store_gen_revision p (cf : config) :
+  c_revision (store_gen p cf) = c_revision cf.
+Proof. destruct p; reflexivity. Qed.
+
+(** one load: the revision never goes down, the configuration never goes back
+    to nil, and an applied load on an existing configuration strictly raises
+    the revision *)
+Lemma load_monotonic p (s : state) (arg : option config) :
+  let s' := load_state R_eqb O_eqb R_empty O_empty p s arg in
+  rev_le (rev_of s) (rev_of s')
+  /\ (load_err R_eqb O_eqb R_empty O_empty p s arg = None ->
+      forall cur, s = Some cur ->
+      exists cf, arg = Some cf /\ s' = Some (store_gen p cf)
+                 /\ c_revision cur < c_revision cf).
+Proof.
+  unfold load_state, load_err, TargetCfgModel.load_gen.
+  destruct arg as [cf|]; cbn [fst snd]; [|split; [apply rev_le_refl|discriminate]].
+  destruct (validate_gen p cf); cbn [fst snd]; [split; [apply rev_le_refl|discriminate]|].
+  destruct (check_revision s cf) eqn:Ec; cbn [fst snd]; [|split; [apply rev_le_refl|discriminate]].
+  apply check_revision_spec in Ec. split.
+  - destruct s as [cur|]; cbn in *; [|exact I]. rewrite store_gen_revision. lia.
+  - intros _ cur ->. exists cf. cbn in Ec. auto.
+Qed.
+
+(** every history of loads: revisions are monotonic *)
+Lemma history_monotonic p (hs : list hop) : forall (s : state),
+  forallb is_load hs = true ->
+  rev_le (rev_of s) (rev_of (fst (run_gen p s hs))).
+Proof.
+  induction hs as [|h hs IH]; intros s Hl; [apply rev_le_refl|].
+  cbn in Hl. apply andb_true_iff in Hl as [Hh Hl]. cbn [run_gen fst].
+  eapply rev_le_trans; [|apply IH; assumption].
+  destruct h as [arg|c']; [|discriminate]. cbn [hop_state].
+  apply (load_monotonic p s arg).
+Qed.
+
 (** * the announcements do not depend on Go's map iteration order
 
     The model iterates its association lists front to back; the Go code ranges
